@@ -58,24 +58,32 @@ def _make(ns, ZR):
     ZRB = 'ace_time::%s::ZoneRegistryBroker' % ns
 
     def _zoneinfo_pre(c):
+        # the ghost size is set by the lookup under verification; verified on its own, the accessor gets an arbitrary size
+        if 'registry_size' not in c.ghost:
+            c.ghost['registry_size'] = z3.BitVec('ghost_registry_size', 16)
         return [z3.ULT(c.args[1], c.ghost['registry_size'])]
 
     def _zoneinfo_post(c, ZI=ZI, ZRB=ZRB):
         reg = c.old.field(c.this, ZRB, 'mZoneRegistry')
         i = c.args[1]
         r = c.ex.ptr_to_bv(c.result)
+        real = c.old.load(Ptr(None, reg + 8 * zx(i, 64)), 8)
+        return [('real-read', r == real)]
+
+    def _zoneinfo_defs(c, ZI=ZI, ZRB=ZRB):
+        reg = c.old.field(c.this, ZRB, 'mZoneRegistry')
+        i = c.args[1]
+        r = c.old.load(Ptr(None, reg + 8 * zx(i, 64)), 8)
         name_off, _ = c.mod.field(ZI, 'name')
         id_off, _ = c.mod.field(ZI, 'zoneId')
-        real = c.old.load(Ptr(None, reg + 8 * zx(i, 64)), 8)
-        return [('real-read', r == real),
-                # instances of the definitions of the ghost views at the index touched
-                ('def-ZIG', r == ZIG(reg, i)),
+        # instances of the DEFINITIONS of the ghost registry views at the index touched
+        return [('def-ZIG', r == ZIG(reg, i)),
                 ('def-G', KEY(c.old.load(Ptr(None, r + name_off), 8)) == G(reg, i)),
                 ('def-IDG', c.old.load(Ptr(None, r + id_off), 4) == IDG(reg, i))]
 
     # touching entry i is allowed only for i < registry size (ghost): "touches only registry entries"
-    contract('%s::zoneInfo(unsigned short) const' % ZRB, pure=True, requires=_zoneinfo_pre, ensures=_zoneinfo_post,
-             note='the three def-* clauses are instances of the definitions of the ghost registry views')
+    contract('%s::zoneInfo(unsigned short) const' % ZRB, pure=True, props=['C10'], requires=_zoneinfo_pre, ensures=_zoneinfo_post, defs=_zoneinfo_defs,
+             note='defs: instances of the definitions of the ghost registry views (conservative extension), assumed at call sites only')
 
     sig_n = '(%s const* const*, unsigned short, char const*)' % ZI
     sig_i = '(%s const* const*, unsigned short, unsigned int)' % ZI
